@@ -190,6 +190,38 @@ func requirement(alt M) M {
 	return req
 }
 
+// variantAlts is the requirement `alts` with the same scheme sets but other scopes: what a sibling operation
+// (tag "sib1", "sib2") or the global requirement (tag "glob") declares.
+func variantAlts(alts any, tag string) any {
+	out := []M{}
+	for _, a := range drv.List(alts) {
+		am := drv.Map(a)
+		schemes := strs(am["schemes"])
+		scopes := [][]string{}
+		for _, s := range schemes {
+			scopes = append(scopes, []string{tag, "r" + s + "-" + tag})
+		}
+		out = append(out, M{"schemes": schemes, "scopes": scopes})
+	}
+	return drv.Norm(M{"a": out})["a"]
+}
+
+// targetAlts is the requirement of the operation a request addresses
+func targetAlts(d M, target string) any {
+	if target == "op" || target == "" {
+		return d["alts"]
+	}
+	return variantAlts(d["alts"], target)
+}
+
+func requirements(alts any) []M {
+	reqs := []M{}
+	for _, a := range drv.List(alts) {
+		reqs = append(reqs, requirement(drv.Map(a)))
+	}
+	return reqs
+}
+
 func buildDoc(d M) ([]byte, error) {
 	undef := map[string]bool{}
 	for _, s := range strs(d["undef"]) {
@@ -201,27 +233,28 @@ func buildDoc(d M) ([]byte, error) {
 			defs[s] = M{"type": "apiKey", "in": "header", "name": keyHeader(s)}
 		}
 	}
-	reqs := []M{}
-	for _, a := range drv.List(d["alts"]) {
-		reqs = append(reqs, requirement(drv.Map(a)))
+	reqs := requirements(d["alts"])
+	operation := func(id string) M {
+		return M{
+			"operationId": id,
+			"consumes":    []string{"application/json"},
+			"produces":    []string{"application/json"},
+			"parameters": []M{
+				{"name": "q", "in": "query", "required": true, "type": "string"},
+				{"name": "p", "in": "query", "type": "string", "format": "verifprobe"},
+				{"name": "body", "in": "body", "schema": M{"type": "object"}},
+			},
+			"responses": M{"200": M{"description": "ok"}},
+		}
 	}
-	op := M{
-		"operationId": "op",
-		"consumes":    []string{"application/json"},
-		"produces":    []string{"application/json"},
-		"parameters": []M{
-			{"name": "q", "in": "query", "required": true, "type": "string"},
-			{"name": "p", "in": "query", "type": "string", "format": "verifprobe"},
-			{"name": "body", "in": "body", "schema": M{"type": "object"}},
-		},
-		"responses": M{"200": M{"description": "ok"}},
-	}
+	op := operation("op")
+	paths := M{"/op": M{"post": op}}
 	doc := M{
 		"swagger":             "2.0",
 		"info":                M{"title": "c02", "version": "1"},
 		"basePath":            "/",
 		"securityDefinitions": defs,
-		"paths":               M{"/op": M{"post": op}},
+		"paths":               paths,
 	}
 	switch drv.Str(d["where"]) {
 	case "global":
@@ -229,8 +262,20 @@ func buildDoc(d M) ([]byte, error) {
 	case "op":
 		op["security"] = reqs
 	case "override": // the operation's own list replaces the global one
-		doc["security"] = []M{{"D": []string{"decoy"}}}
+		if len(reqs) == 0 {
+			doc["security"] = []M{{"D": []string{"decoy"}}}
+		} else {
+			// the global requirement names the same schemes with other scopes
+			doc["security"] = requirements(variantAlts(d["alts"], "glob"))
+		}
 		op["security"] = reqs
+	}
+	// sibling operations: same scheme sets, other scopes (each overrides whatever is global)
+	for i := 1; i <= drv.Int(d["siblings"]); i++ {
+		tag := fmt.Sprintf("sib%d", i)
+		sib := operation(tag)
+		sib["security"] = requirements(variantAlts(d["alts"], tag))
+		paths["/"+tag] = M{"post": sib}
 	}
 	return json.Marshal(doc)
 }
@@ -278,14 +323,18 @@ func build(d M) (*built, error) {
 			return nil
 		}))
 	}
-	api.RegisterOperation("post", "/op", runtime.OperationHandlerFunc(func(interface{}) (interface{}, error) {
+	handler := runtime.OperationHandlerFunc(func(interface{}) (interface{}, error) {
 		if cur != nil {
 			cur.ran = true
 		}
 		// the untyped handler cannot see the request: it returns an error so that the API's error
 		// responder, which receives the request the handler ran under, can record what is readable
 		return nil, errors.New(418, "handler-ran")
-	}))
+	})
+	api.RegisterOperation("post", "/op", handler)
+	for i := 1; i <= drv.Int(d["siblings"]); i++ {
+		api.RegisterOperation("post", fmt.Sprintf("/sib%d", i), handler)
+	}
 	api.ServeError = func(rw http.ResponseWriter, r *http.Request, err error) {
 		if cur != nil {
 			cur.errSeen = true
@@ -307,10 +356,13 @@ func build(d M) (*built, error) {
 	return &built{ctx: ctx, handler: ctx.RoutesHandler(nil)}, nil
 }
 
-func request(d M, out map[string]outcome, variant string) *http.Request {
-	url := "/op?q=1&p=x"
+func request(d M, out map[string]outcome, variant, target string) *http.Request {
+	if target == "" {
+		target = "op"
+	}
+	url := "/" + target + "?q=1&p=x"
 	if variant == "query" {
-		url = "/op?p=x"
+		url = "/" + target + "?p=x"
 	}
 	req := httptest.NewRequest(http.MethodPost, url, strings.NewReader(`{"a":1}`))
 	req.Header.Set("Content-Type", "application/json")
@@ -345,7 +397,7 @@ func execute(c *drv.Ctx, d M) (nontrivial bool) {
 		panic("c02: cannot build the API: " + err.Error())
 	}
 	// the structure the router derived from the document
-	route, _ := b.ctx.LookupRoute(request(d, nil, "good"))
+	route, _ := b.ctx.LookupRoute(request(d, nil, "good", "op"))
 	alts := [][]string{}
 	anon := []bool{}
 	if route != nil {
@@ -362,13 +414,17 @@ func execute(c *drv.Ctx, d M) (nontrivial bool) {
 		// Evaluation order inside an alternative = order of RouteAuthenticator.Schemes, which the router
 		// fills from a Go map iteration.  Every order is a state the router can be in; the driver puts
 		// the looked-up route (it shares the slices with the router's entry) into the requested one.
+		target := drv.Str(rm["target"])
+		if target == "" {
+			target = "op"
+		}
 		forced := [][]string{}
-		if route != nil {
+		if troute, _ := b.ctx.LookupRoute(request(d, nil, "good", target)); troute != nil {
 			ord := drv.List(rm["order"])
-			for i := range route.Authenticators {
-				sch := route.Authenticators[i].Schemes
-				if i < len(ord) && len(alts[i]) == len(drv.List(ord[i])) && !anon[i] {
-					sorted := append([]string{}, alts[i]...)
+			for i := range troute.Authenticators {
+				sch := troute.Authenticators[i].Schemes
+				if i < len(ord) && len(sch) == len(drv.List(ord[i])) && !troute.Authenticators[i].AllowsAnonymous() {
+					sorted := append([]string{}, sch...)
 					sort.Strings(sorted)
 					for k, ix := range drv.List(ord[i]) {
 						sch[k] = sorted[drv.Int(ix)]
@@ -379,10 +435,10 @@ func execute(c *drv.Ctx, d M) (nontrivial bool) {
 		}
 		orders[fmt.Sprint(forced)] = true
 		rec := &recorder{w: c.W, principal: []string{}, scopes: []string{}, out: outcomes(rm["out"])}
-		c.W.Event("req", M{"variant": variant, "order": forced, "out": rm["out"]})
+		c.W.Event("req", M{"variant": variant, "order": forced, "out": rm["out"], "target": target, "alts": targetAlts(d, target)})
 		cur = rec
 		rw := httptest.NewRecorder()
-		b.handler.ServeHTTP(rw, request(d, rec.out, variant))
+		b.handler.ServeHTTP(rw, request(d, rec.out, variant, target))
 		cur = nil
 		if rec.authCalls > 0 {
 			nontrivial = true
@@ -452,7 +508,7 @@ func altSizes(d M) []int {
 // requirements are declared, which kind of authenticator every scheme uses, why an unavailable scheme is
 // unavailable.  Requests are added with addReqs.
 func structureOf(schemes []string, alts, avail, authz any, idx int) M {
-	d := M{"schemes": schemes, "alts": alts, "avail": avail, "authz": authz, "reqs": []M{}}
+	d := M{"schemes": schemes, "alts": alts, "avail": avail, "authz": authz, "reqs": []M{}, "siblings": (idx / 2) % 3}
 	d = drv.Norm(d)
 	if len(drv.List(d["alts"])) == 0 {
 		d["where"] = []string{"none", "override"}[idx%2]
@@ -493,7 +549,12 @@ func addReqs(d M, out any, j int, maxCombos int, allVariants bool, pick func(n i
 	}
 	reqs := drv.List(d["reqs"])
 	for k := 0; k < n; k++ {
-		reqs = append(reqs, M{"out": out, "variant": variants[(j+k)%len(variants)], "order": combos[k%len(combos)]})
+		// most requests address /op; with sibling operations (same schemes, other scopes) every 4th one a sibling
+		target := "op"
+		if n := drv.Int(d["siblings"]); n > 0 && len(drv.List(d["alts"])) > 0 && (j+k)%4 == 3 {
+			target = fmt.Sprintf("sib%d", 1+(j+k/4)%n)
+		}
+		reqs = append(reqs, M{"out": out, "variant": variants[(j+k)%len(variants)], "order": combos[k%len(combos)], "target": target})
 	}
 	d["reqs"] = reqs
 }
